@@ -1,4 +1,7 @@
 import WhVerif.Lemmas.C09
+import WhVerif.Lemmas.C09PseudoInst
+import WhVerif.Lemmas.C09PseudoOrder
+import WhVerif.Props.C02
 /-!
 # C09 — PS and HP encodings are equivalent, round-trip, and never mix old and new phase
 
@@ -245,5 +248,105 @@ example : written false f4Target 10 = some ⟨some 11, [some 1, some 0]⟩ := by
 example : blocksAsReads 2 [⟨10, true, [0, 1], some ⟨some 11, [some 0, some 1]⟩⟩, ⟨20, true, [0, 1], some ⟨some 11, [some 1, some 0]⟩⟩,
       ⟨30, true, [1, 1], none⟩, ⟨40, true, [0, 1], some ⟨some 41, [some 0, some 1]⟩⟩]
     = [(some 11, 0, [(10, some 0), (20, some 1)]), (some 11, 1, [(10, some 1), (20, some 0)])] := by decide
+
+/-! ### a phased VCF as the only phase input reproduces its phase sets (`Spec/C09Pseudo.lean`)
+
+Composition of the pseudo reads with the solver (C01/C02).  `rows` is the phased input of one sample on one
+chromosome, sorted by position as `VariantTable` guarantees.  `tagged` is the read set the solver sees: ALL pseudo
+reads (hypothesis `hsel`: read selection keeps them — "the sets fit under the coverage cap", C07) in ANY order that
+is sorted by first position (`ReadSet.sort()` breaks ties by a hash of the read name, so the order of the two
+reads of a block is not fixed; the emission order itself is admissible: `pseudo_reads_emitted_sorted`).
+`pseudoInst` is the solver instance: columns = sorted distinct positions of the reads (`pseudo_cols`), trusted
+heterozygous genotypes, positive weights `w`. -/
+
+open WhVerif.C01 WhVerif.C02 in
+/-- **pseudo_reads_reproduce_sets**.  The instance is sorted (`WF`) and its reads are error-free copies of the two
+    haplotypes of the input phasing (`ErrFree`, truth = allele on haplotype 0, `src` = haplotype index of the
+    pseudo read); hence the solver reports cost 0, returns a witness, and for ANY witness `(β, τ)` achieving the
+    reported cost every phase set `b` with at least two eligible variants is reproduced up to exchanging its two
+    haplotypes: there is ONE `swap` for the block such that every variant `v` of the block (input phase
+    `a | 1-a`) has a column `c` whose super-read alleles are exactly `(a, 1-a)` (or `(1-a, a)` if `swap`) — no tie
+    flag.  Blocks may interleave arbitrarily. -/
+theorem pseudo_reads_reproduce_sets (rows : List VarPhase) (w : Nat → Nat) (recomb : List Nat)
+    (hs : rows.Pairwise (fun u v => u.pos < v.pos))
+    (hbi : ∀ v ∈ rows, eligible 2 v = true → ∃ ph, v.phase = some ph ∧
+        (ph.alleles = [some 0, some 1] ∨ ph.alleles = [some 1, some 0]))
+    (hw : ∀ p, 0 < w p)
+    (tagged : List PRead) (hsel : tagged.Perm (blocksAsReads 2 rows))
+    (hord : tagged.Pairwise (fun x y => firstPos x ≤ firstPos y)) :
+    let I := pseudoInst rows w recomb tagged
+    WF I ∧ ErrFree I (truthHap rows) (srcOf tagged) ∧ dpCost I = some 0 ∧
+    (∃ β τ, witness I = some (β, τ)) ∧
+    ∀ β τ, totalCost I β τ = dpCost I →
+      ∀ b, (blockRows rows b).length > 1 →
+        ∃ swap : Bool, ∀ v ∈ blockRows rows b,
+          ∃ a, a ≤ 1 ∧ alleleAt 0 v = some a ∧ alleleAt 1 v = some (1 - a) ∧
+          ∃ c, c < I.ncols ∧ (pseudoCols rows)[c]? = some v.pos ∧
+            getAlleles I c (restrict β (I.activeAt c)) (τ.getD c 0) =
+              some [if swap then (1 - a, a) else (a, 1 - a)] := by
+  intro I
+  have hmem : ∀ t ∈ tagged, t ∈ blocksAsReads 2 rows := fun t ht => hsel.mem_iff.mp ht
+  have hwf : WF I := pseudoInst_wf hs hmem hord
+  have hef : ErrFree I (truthHap rows) (srcOf tagged) := pseudoInst_errfree hs hbi hw hmem
+  have hz : dpCost I = some 0 := WhVerif.Props.C02.errfree_dpCost_zero hef hwf
+  refine ⟨hwf, hef, hz, ?_, ?_⟩
+  · cases hwit : witness I with
+    | none => rw [(WhVerif.Props.C01.witness_none_iff I).mp hwit] at hz; cases hz
+    | some p => exact ⟨p.1, p.2, rfl⟩
+  · intro β τ hcost b hlen
+    have ht0 := blocksAsReads_of_block hlen 0 (Or.inl rfl)
+    obtain ⟨r0, hr0, hget⟩ := List.mem_iff_getElem.mp (hsel.mem_iff.mpr ht0)
+    refine ⟨β.getD r0 false, ?_⟩
+    intro v hv
+    have hel := mem_blockRows.mp hv
+    obtain ⟨a, ha, h0, h1⟩ := alleleAt_biallelic hbi hel.1 hel.2.1
+    have hcovered := blockRows_covered hlen hv
+    have hcol := pos_mem_pseudoCols hcovered
+    refine ⟨a, ha, h0, h1, colOf (pseudoCols rows) v.pos, colOf_lt hcol, getElem?_colOf hcol, ?_⟩
+    have hcov : covers I r0 (colOf (pseudoCols rows) v.pos) :=
+      pseudoInst_covers hr0 (by rw [hget]; exact ht0) (by rw [hget]; exact hv)
+    have hr0' : r0 < I.nreads := by rw [pseudoInst_nreads]; exact hr0
+    rw [WhVerif.Props.C02.pipeline_truth hef hwf β τ hcost r0 r0 _ (Connected.refl r0 hr0') hcov (colOf_lt hcol)]
+    have hsrc : srcOf tagged r0 = false := by rw [srcOf_getElem hr0, hget]; rfl
+    rw [hsrc, truthHap_colOf hs hcovered, h0]
+    cases β.getD r0 false <;> simp
+
+/-- the columns of the instance are exactly the positions of the pseudo reads, strictly increasing
+    (= `sorted(readset.get_positions())`) -/
+theorem pseudo_cols (rows : List VarPhase) (hs : rows.Pairwise (fun u v => u.pos < v.pos)) :
+    (pseudoCols rows).Pairwise (· < ·) ∧
+    ∀ p, p ∈ pseudoCols rows ↔ ∃ t ∈ blocksAsReads 2 rows, p ∈ t.2.2.map (·.1) :=
+  ⟨pseudoCols_sorted hs, fun _ => mem_pseudoCols⟩
+
+/-- `phased_blocks_as_reads` emits its reads sorted by first position already (blocks in the order of their first
+    eligible variant, the two reads of a block adjacent): `tagged := blocksAsReads 2 rows` satisfies the
+    hypotheses of `pseudo_reads_reproduce_sets` -/
+theorem pseudo_reads_emitted_sorted (rows : List VarPhase) (hs : rows.Pairwise (fun u v => u.pos < v.pos)) :
+    (blocksAsReads 2 rows).Pairwise (fun x y => firstPos x ≤ firstPos y) :=
+  blocksAsReads_sorted hs
+
+/-! non-vacuity: two interleaved blocks (7: positions 10, 30, 50; 9: positions 20, 40), a homozygous row, a singleton
+    block and an unwanted row -/
+
+def exRows : List VarPhase :=
+  [⟨10, true, [0, 1], some ⟨some 7, [some 0, some 1]⟩⟩, ⟨20, true, [0, 1], some ⟨some 9, [some 1, some 0]⟩⟩,
+   ⟨30, true, [0, 1], some ⟨some 7, [some 1, some 0]⟩⟩, ⟨35, true, [1, 1], none⟩,
+   ⟨40, true, [0, 1], some ⟨some 9, [some 1, some 0]⟩⟩, ⟨50, true, [0, 1], some ⟨some 7, [some 0, some 1]⟩⟩,
+   ⟨60, true, [0, 1], some ⟨some 61, [some 0, some 1]⟩⟩, ⟨70, false, [0, 1], some ⟨some 9, [some 0, some 1]⟩⟩]
+
+example : blocksAsReads 2 exRows =
+    [(some 7, 0, [(10, some 0), (30, some 1), (50, some 0)]), (some 7, 1, [(10, some 1), (30, some 0), (50, some 1)]),
+     (some 9, 0, [(20, some 1), (40, some 1)]), (some 9, 1, [(20, some 0), (40, some 0)])] := by decide
+example : pseudoCols exRows = [10, 20, 30, 40, 50] := by decide
+example : (pseudoInst exRows (fun _ => 20) [] (blocksAsReads 2 exRows)).reads.map (fun r => (r.first, r.last, r.entries)) =
+    [(0, 4, [(0, 0, 20), (2, 1, 20), (4, 0, 20)]), (0, 4, [(0, 1, 20), (2, 0, 20), (4, 1, 20)]),
+     (1, 3, [(1, 1, 20), (3, 1, 20)]), (1, 3, [(1, 0, 20), (3, 0, 20)])] := by decide
+example : (blockRows exRows (some 7)).length > 1 ∧ (blockRows exRows (some 9)).length > 1 := by decide
+
+/-- the theorem instantiated on the interleaved example (emission order; swapping the two reads of block 9 is
+    another admissible order) -/
+example :=
+  pseudo_reads_reproduce_sets exRows (fun _ => 20) [] (by decide) (by decide) (fun _ => by decide)
+    (blocksAsReads 2 exRows) (List.Perm.refl _) (pseudo_reads_emitted_sorted exRows (by decide))
 
 end WhVerif.Props.C09
